@@ -868,10 +868,11 @@ def _register_vector_gradient_rules() -> None:
             if left_index is not None and right_index is not None:
                 # wrt appears in both: x · x case or overlapping vectors
                 # ∂(x·x)/∂x_i = 2*x_i
-                if left is right or left.name == right.name:
+                if left is right or left_index == right_index:
+                    # same position on both sides: ∂(x_i * x_i)/∂x_i = 2*x_i
                     return _simplify_mul(Constant(2.0), wrt)
                 else:
-                    # Different vectors with same variable name? Sum contributions
+                    # Overlapping views of one vector: sum both contributions
                     return _simplify_add(
                         right_elems[left_index], left_elems[right_index]
                     )
